@@ -52,6 +52,7 @@ func init() {
 		nd + "Log":        extNdLog,
 		nd + "Events":     func(fr *frame, a []value) value { return len(fr.p.events) },
 		nd + "Yield":      func(fr *frame, a []value) value { fr.schedPoint("yield"); return nil },
+		nd + "Pause":      func(fr *frame, a []value) value { fr.pausePoint(); return nil },
 		nd + "Schedule": func(fr *frame, a []value) value {
 			fr.p.sched.explore = true
 			fr.p.sched.bound = int(asInt64(a[0]))
